@@ -476,6 +476,9 @@ func extBehaviourOf(name string) (extBehaviour, bool) {
 		return extBehaviour{aliasArgs: []int{1}, fresh: true}, true
 	case name == "sort.Slice" || name == "sort.Sort" || name == "sort.Stable" || name == "sort.SliceStable":
 		return extBehaviour{writeArgs: []int{0}}, true
+	case name == "sort.SliceIsSorted" || name == "sort.IsSorted" || name == "slices.IsSorted" || name == "slices.IsSortedFunc":
+		// reads its argument (and calls the comparison it is given), writes and keeps nothing
+		return extBehaviour{pure: true}, true
 	case name == "(bytes.Buffer).Write" || name == "(bytes.Buffer).WriteByte" || name == "(bytes.Buffer).WriteString" || name == "(bytes.Buffer).Reset" || name == "(bytes.Buffer).ReadByte" || name == "fmt.Fprintf" || name == "fmt.Fprint" || name == "fmt.Fprintln":
 		return extBehaviour{writeArgs: []int{0}}, true
 	case name == "(bytes.Buffer).Bytes":
